@@ -168,7 +168,7 @@ func (g *c15JSGen) e(ts ...string) {
 	g.noBrace = false
 }
 
-var c15Idents = []string{"a", "b", "c", "x", "y", "foo", "bar", "$el", "_tmp", "i", "ünï", "名前", "𝒳", "v1", "\\u0061bc", "of", "get", "async"}
+var c15Idents = []string{"a", "b", "c", "x", "y", "foo", "bar", "$el", "_tmp", "i", "ünï", "名前", "𝒳", "v1", "use", "u2", "\\u0061bc", "of", "get", "async"}
 
 func (g *c15JSGen) id() string {
 	// the contextual keywords at the end of the pool are valid identifiers but make statement starts ambiguous
